@@ -266,6 +266,28 @@ def _lower_type(part):
     return head.lower() + semi + rest
 
 
+def calibrate_cookie_quoting():
+    """Which reading does this tree apply to DQUOTE-wrapped cookie-values?  Decided once per stack on a
+    non-empty quoted canary; every quoted value (the empty one included) is then held to that reading.
+    Returns findings (a canary that yields neither reading)."""
+    findings = []
+    for stack in STACKS:
+        if stack in M.QUOTED_COOKIE_READING:
+            continue
+        c = base_case()
+        c['headers'] = [['Cookie', 'k="v"; p=1; z="xyz"']]
+        req = new_request(c, stack)
+        got = read(req, lambda r: (r.get_cookie_values('k'), r.get_cookie_values('z'), r.cookies.get('k')))
+        if got == ('val', (['v'], ['xyz'], 'v')):
+            M.QUOTED_COOKIE_READING[stack] = 'strip'
+        elif got == ('val', (['"v"'], ['"xyz"'], '"v"')):
+            M.QUOTED_COOKIE_READING[stack] = 'keep'
+        else:
+            findings.append({'kind': 'value-mismatch', 'stack': stack, 'accessor': 'cookies', 'got': list(got),
+                             'want': ['quoted canary read as v/xyz or "v"/"xyz"'], 'known': None, 'case': c})
+    return findings
+
+
 def evaluate(case, stacks=STACKS):
     """Run all direct monitors on one abstract request. Returns (findings, counters, branch labels, snaps)."""
     findings, C, BR, snaps = [], {}, set(), {}
@@ -616,6 +638,8 @@ def gen_cookie(rng):
         v = ''.join(rng.choice(rng.choice(['abc019', octets, '=%+/'])) for _ in range(rng.choice([0, 1, 3, 6, 12])))
         if rng.random() < 0.25:
             v = '"' + v + '"'
+        if rng.random() < 0.1:
+            v = '""'          # empty quoted value: same reading as every other quoted value
         pairs.append(n + '=' + v)
     return '; '.join(pairs)
 
@@ -905,7 +929,7 @@ def exhaustive_values(tier):
                     yield ('If-Modified-Since', 'X-When'), '%s, %02d-%s-%02d %s GMT' % (M.DAYL[wd], d, mon, y % 100, t), None
                     yield ('If-Unmodified-Since', 'X-When'), '%s %s %2d %s %04d' % (M.DAY3[wd], mon, d, t, y), None
     # cookies: sequences of <= 3 pairs
-    cp = ['a=1', 'a=2', 'b=', 'c="q"', 'd=""', 'e=x=y', 'bad name=1', '=v', 'f', 'g="a b"', 'h=\xe9', 'i="']
+    cp = ['a=1', 'a=2', 'b=', 'c="q"', 'd=""', 'a=""', 'e=x=y', 'bad name=1', '=v', 'f', 'g="a b"', 'h=\xe9', 'i="']
     for k in (1, 2, 3):
         for tup in itertools.product(cp if (deep or k < 3) else cp[:8], repeat=k):
             for s in (['; ', ';'] if (deep or k < 3) else ['; ']):
@@ -1083,7 +1107,7 @@ BRANCH_FLOORS = [
     'range.int', 'range.open', 'range.suffix', 'range.multi', 'range.invalid', 'range.first_eq_last',
     'date.imf', 'date.rfc850', 'date.asctime', 'date.invalid',
     'etag.star', 'etag.single', 'etag.list', 'etag.weak', 'etag.comma_inside', 'etag.empty_opaque', 'etag.invalid',
-    'cookie.valid', 'cookie.duplicate_name', 'cookie.quoted', 'cookie.multi', 'cookie.invalid',
+    'cookie.valid', 'cookie.duplicate_name', 'cookie.quoted', 'cookie.empty_quoted', 'cookie.multi', 'cookie.invalid',
     'fwd.valid', 'fwd.multi_hop', 'fwd.ext_param', 'fwd.quoted_pair', 'fwd.ipv6_port', 'fwd.ipv6', 'fwd.obfnode',
     'fwd.obfport', 'fwd.invalid',
     'host.reg', 'host.ipv4', 'host.ipv6', 'host.port', 'host.noport', 'host.empty_port', 'host.invalid', 'host.absent',
@@ -1112,7 +1136,8 @@ def run(rec):
         'reference readers in vlib/models/c09_headers.py are correct readings of RFC 9110/6265/7239/3986',
         'date/if_modified_since/if_unmodified_since are documented as RFC 1123 only: obs-date forms are demanded '
         'only from get_header_as_datetime(obs_date=True); two-digit rfc850 years are demanded modulo 100',
-        'a DQUOTE-wrapped cookie-value may be returned with or without the quotes; an IPv6 host with or without brackets',
+        'a DQUOTE-wrapped cookie-value may be read with or without its quotes, but with ONE reading for all quoted '
+        'values incl. the empty one (calibrated per stack on a non-empty canary); an IPv6 host with or without brackets',
         'Accept media-range parameters other than q, duplicate ranges and quoted strings are left to C11',
         'header values are latin-1 texts (PEP 3333 native strings / ASGI bytes); query strings are ASCII',
         'response round trip uses years 1000-9999 (strftime does not zero-pad smaller years)',
@@ -1125,6 +1150,11 @@ def run(rec):
     R = Runner(rec)
     deep = rec.tier != 'quick'
     e2e_every = 7
+    for f in calibrate_cookie_quoting():
+        c = f.pop('case')
+        R.report(c, [f])
+    for stack in STACKS:
+        rec.count('calibrated.cookie_quoting.' + M.QUOTED_COOKIE_READING.get(stack, 'none') + '.' + stack)
     idx = 0
     # ---- part 1a: per-family value spaces
     for names, value, extra in exhaustive_values(rec.tier):
@@ -1198,6 +1228,8 @@ def replay(rec, w):
         rec.case(('rt', 2))
         return
     case = _unjson(wit['case'])
+    for f in calibrate_cookie_quoting():
+        print('REPLAY', f)
     fs = R.run_case(case, do_e2e=True)
     for f in fs:
         print('REPLAY', {k: v for k, v in f.items()})
